@@ -68,6 +68,9 @@ type accessTrace struct {
 func compactEvents(log []Event) []accEvent {
 	out := make([]accEvent, 0, len(log))
 	for _, e := range log {
+		if e.Err == "fault" {
+			continue // the injected failure itself read nothing
+		}
 		switch e.Op {
 		case "Get", "Next", "Poll", "PollEnd", "BatchDelete", "Delete", "Put", "BatchPut":
 			k := e.K
@@ -392,6 +395,19 @@ func replayRegion(args []string) {
 								continue
 							}
 							out.Trace("access", accessTrace{ID: fmt.Sprintf("%s#s%d-%s-%s%d", id, si, kind, mode, bs), Q: q, Pins: fixPins(rc.Pins), Unsat: rc.Unsat, Events: compactEvents(sh.Log)})
+							// the same statement with one of its first storage calls failing (cursor creation, the
+							// positioning Seek, a Get): whatever it does next, it reads nothing outside the envelope
+							if si == 0 && kind == "select" && bs == bsizes[0] && (c.tier == "thorough" || idx%3 == int(envSeed()%3)) {
+								for f := 1; f <= 4 && f <= sh.NCalls; f++ {
+									of, shf := RunOn(q, pairs, RunOpts{Mode: mode, BSize: bs, Cache: true, FaultAt: f, PollsAfterFail: 1})
+									out.Stats.Evaluations++
+									out.Stats.bump("faulted-access-runs")
+									if of.Phase == "panic" || of.Phase == "runaway" {
+										continue
+									}
+									out.Trace("access", accessTrace{ID: fmt.Sprintf("%s#s%d-%s-%s%d-f%d", id, si, kind, mode, bs, f), Q: q, Pins: fixPins(rc.Pins), Unsat: rc.Unsat, Events: compactEvents(shf.Log)})
+								}
+							}
 						}
 					}
 				}
